@@ -87,6 +87,9 @@ async fn start_server_opt(tls: Option<&str>, dict: Arc<Dictionary>, seen: Arc<Mu
                 Duration::from_millis(40),
                 server.listen(
                     move |req| {
+                        if session_id(&req).starts_with("SYNCPANIC") {
+                            panic!("handler panic (synchronous part) requested by the scenario");
+                        }
                         let d = Arc::clone(&d2);
                         let s = Arc::clone(&s2);
                         handler(req, d, s)
@@ -100,6 +103,10 @@ async fn start_server_opt(tls: Option<&str>, dict: Arc<Dictionary>, seen: Arc<Mu
         let _ = server
             .listen(
                 move |req| {
+                    // a panic in the synchronous part of the handler (before its future exists), as opposed to one inside the future
+                    if session_id(&req).starts_with("SYNCPANIC") {
+                        panic!("handler panic (synchronous part) requested by the scenario");
+                    }
                     let d = Arc::clone(&d2);
                     let s = Arc::clone(&seen);
                     handler(req, d, s)
@@ -297,6 +304,7 @@ async fn faulty_peer(addr: std::net::SocketAddr, tls: bool, dict: Arc<Dictionary
                 "zero-length" => { let _ = c.write_all(&[1, 0, 0, 0]).await; }
                 "stall-midframe" => { let r = request(&dict, "stall", 1); let _ = c.write_all(&r[..r.len() / 2]).await; }
                 "handler-panic" => { let _ = c.write_all(&request(&dict, "PANIC-now", 2)).await; }
+                "handler-panic-sync" => { let _ = c.write_all(&request(&dict, "SYNCPANIC-now", 2)).await; }
                 "announce-leave" => {
                     // announces the largest legal frame (1 MiB), sends a few octets of it and goes away
                     let _ = c.write_all(&[1, 0x10, 0, 0, 0x80, 0, 1, 16, 0, 0, 0, 4, 0, 0, 0, 1]).await;
